@@ -85,4 +85,13 @@ theorem step_blank0 {c : Cfg V} {la : Nat × V} (hs : c.stack = [])
   simp only [hs, topState, hd, hla, pure_bind, he, beq_self_eq_true, Bool.true_and, List.all_nil,
     if_true]
 
+/-- with a look-ahead that is neither `$end` nor NEWLINE in hand, in any state: shift -/
+theorem step_shiftG {c : Cfg V} {la : Nat × V} {t : Nat} (hd : T.dflt (topState c.stack) = none)
+    (hla : c.la = some la) (he : (la.1 == T.endTok) = false) (hn : (la.1 == T.nlTok) = false)
+    (ha : T.action (topState c.stack) la.1 = some (.shift t)) :
+    step T H c = pure (.inl { c with la := none, stack := { state := t, tree := .leaf la.1, val := la.2 } :: c.stack, consumed := c.consumed ++ [la.1] }) := by
+  unfold step
+  simp only [hd, hla, pure_bind, he, hn, Bool.false_and, Bool.and_false, Bool.false_eq_true,
+    if_false, ha]
+
 end Bashlex.C02
